@@ -105,6 +105,7 @@ CODEC_REQ = [
     "codec.dec.method.Borrow", "codec.dec.method.Copy", "codec.dec.method.Anchored", "codec.dec.method.Read",
     "codec.enc.method.AnchoredSplitHold", "codec.dec.method.AnchoredSplitHold",
     "codec.enc.method.SinkCopy", "codec.enc.method.SinkBorrow",
+    "codec.enc.zero_length_piece_in_the_middle", "codec.dec.zero_length_piece_in_the_middle",
     "codec.reads_retried_after_a_transient_failure",
     "codec.reuse.encoder.anchored_slices_carried_into_the_next_message",
     "codec.reuse.decoder.anchored_slices_carried_into_the_next_message",
